@@ -29,3 +29,8 @@ s_harness! { fn c01_shape_6() { shape_6::<CHK_READS>() } }
 s_harness! { fn c19_shape_6() { shape_6::<CHK_STATS>() } }
 s_harness! { fn c14_shape_6() { shape_6::<{ CHK_MONITOR | CHK_SIZES }>() } }
 s_harness! { fn c01_shape_7() { shape_7::<CHK_READS>() } }
+s_harness! { fn c01_shape_8() { shape_8::<CHK_READS>() } }
+s_harness! { fn c01_shape_9() { shape_9::<CHK_READS>() } }
+s_harness! { fn c19_shape_8() { shape_8::<CHK_STATS>() } }
+s_harness! { fn c19_shape_9() { shape_9::<CHK_STATS>() } }
+s_harness! { fn c14_shape_9() { shape_9::<{ CHK_MONITOR | CHK_SIZES }>() } }
